@@ -31,10 +31,13 @@ pub struct Case {
     /// generic radices only: max_significant_digits (0 = unset). With a digit limit only the
     /// well-formedness and acceptance clauses are judged (the rounded value is C14's business).
     pub digits: u8,
+    /// generic radices only: min_significant_digits (0 = unset); padding never changes the value, so every
+    /// clause is judged
+    pub min_digits: u8,
 }
 
 pub fn case_json(j: &Job, c: &Case) -> Value {
-    json!({"format": cat().entries[j.entry].name, "type": FLOAT_NAMES[j.ty], "bits": format!("{:#x}", c.bits), "notation": c.notation, "trim": c.trim, "digits": c.digits})
+    json!({"format": cat().entries[j.entry].name, "type": FLOAT_NAMES[j.ty], "bits": format!("{:#x}", c.bits), "notation": c.notation, "trim": c.trim, "digits": c.digits, "min_digits": c.min_digits})
 }
 
 /// the library's own option presets for a radix apply to plain-radix formats only
@@ -52,6 +55,9 @@ pub fn write_opts(m: &vcore::fmodel::FormatModel, c: &Case) -> lexical_core::Wri
     b = b.trim_floats(c.trim);
     if c.digits > 0 {
         b = b.max_significant_digits(std::num::NonZeroUsize::new(c.digits as usize));
+    }
+    if c.min_digits > 0 && (c.digits == 0 || c.min_digits <= c.digits) {
+        b = b.min_significant_digits(std::num::NonZeroUsize::new(c.min_digits as usize));
     }
     match c.notation {
         1 => {
@@ -124,8 +130,9 @@ fn bits_strategy(k: FloatKind, radix: u32) -> BoxedStrategy<u64> {
 
 fn case_strategy(k: FloatKind, radix: u32, with_digits: bool) -> BoxedStrategy<Case> {
     let digits = if with_digits { prop_oneof![3 => Just(0u8), 1 => 1u8..=6, 1 => 7u8..=40].boxed() } else { Just(0u8).boxed() };
-    (bits_strategy(k, radix), prop_oneof![3 => 0u8..3, 1 => 3u8..5], prop_oneof![3 => Just(false), 1 => Just(true)], any::<bool>(), digits)
-        .prop_map(move |(mag, notation, trim, neg, digits)| Case { bits: if neg { mag | k.sign_mask() } else { mag }, notation, trim, digits })
+    let min_digits = if with_digits { prop_oneof![4 => Just(0u8), 1 => 1u8..=8, 1 => 9u8..=60].boxed() } else { Just(0u8).boxed() };
+    (bits_strategy(k, radix), prop_oneof![3 => 0u8..3, 1 => 3u8..5], prop_oneof![3 => Just(false), 1 => Just(true)], any::<bool>(), digits, min_digits)
+        .prop_map(move |(mag, notation, trim, neg, digits, min_digits)| Case { bits: if neg { mag | k.sign_mask() } else { mag }, notation, trim, digits, min_digits })
         .boxed()
 }
 
@@ -156,7 +163,7 @@ pub fn check_pow2(j: &Job, c: &Case, l: &mut Local) -> CaseResult {
         let (mm, q) = k.decode(mag);
         // residue classes for evidence: exponent mod bits-per-digit
         let bpd = rx.mant.trailing_zeros() as i64;
-        l.nontrivial_hash(splitmix(c.bits ^ ((j.entry as u64) << 50) ^ ((c.notation as u64) << 60) ^ ((c.trim as u64) << 63)));
+        l.nontrivial_hash(splitmix(c.bits ^ ((j.entry as u64) << 50) ^ ((c.notation as u64) << 60) ^ ((c.trim as u64) << 63) ^ ((c.min_digits as u64) << 32)));
         l.class(&format!("radix{}/{}:exp-mod-{}={}:{}{}", rx.mant, rx.base, bpd, q.rem_euclid(bpd), if info.has_exp { "exponent-notation" } else { "positional" }, if k.is_subnormal_or_zero(mag) { ":subnormal" } else { "" }));
         if l.want_sample() {
             l.sample(json!({"case": case_json(j, c), "output": show(&out)}));
@@ -195,7 +202,7 @@ pub fn check_generic(j: &Job, c: &Case, l: &mut Local) -> CaseResult {
     let ec = opts.exponent();
     l.eval(1);
     let mag = k.abs(c.bits);
-    let desc = |what: String| Fail::new(format!("{} {} [{}] write(bits {:#x} ~ {:e}, notation {}, trim {}): {}", FLOAT_NAMES[j.ty], e.name, m.describe(), c.bits, if k.p == 53 { f64::from_bits(c.bits) } else { f32::from_bits(c.bits as u32) as f64 }, NOTATION_NAMES[(c.notation as usize).min(4)], c.trim, if c.digits > 0 { format!("[max_significant_digits {}] {what}", c.digits) } else { what }));
+    let desc = |what: String| Fail::new(format!("{} {} [{}] write(bits {:#x} ~ {:e}, notation {}, trim {}): {}", FLOAT_NAMES[j.ty], e.name, m.describe(), c.bits, if k.p == 53 { f64::from_bits(c.bits) } else { f32::from_bits(c.bits as u32) as f64 }, NOTATION_NAMES[(c.notation as usize).min(4)], c.trim, if c.digits > 0 || c.min_digits > 0 { format!("[max_significant_digits {}, min_significant_digits {}] {what}", c.digits, c.min_digits) } else { what }));
     let out = match do_write(j.entry, j.ty, c.bits, &opts) {
         Ok(o) => o,
         Err(p) => return Err(desc(format!("failed: {p}"))),
@@ -353,7 +360,7 @@ pub fn run_c06(ctx: &Ctx, rep: &mut Report) {
             }
             for mant in mants {
                 for notation in [1u8, 2] {
-                    let c = Case { bits: (e << mb) | mant, notation, trim: false, digits: 0 };
+                    let c = Case { bits: (e << mb) | mant, notation, trim: false, digits: 0, min_digits: 0 };
                     if let Err(f) = check_pow2(j, &c, l) {
                         if filter_known(ctx, l, &f) {
                             viol.push((f.message, case_json(j, &c)));
@@ -390,7 +397,7 @@ fn replay_common(case: &Value, pow2: bool) -> CaseResult {
     let entry = cat().idx(fmt).ok_or_else(|| Fail::new(format!("format {fmt} not compiled in this configuration")))?;
     let ty = if case["type"].as_str() == Some("f32") { 0 } else { 1 };
     let bits = u64::from_str_radix(case["bits"].as_str().unwrap_or("0x0").trim_start_matches("0x"), 16).unwrap_or(0);
-    let c = Case { bits, notation: case["notation"].as_u64().unwrap_or(0) as u8, trim: case["trim"].as_bool().unwrap_or(false), digits: case["digits"].as_u64().unwrap_or(0) as u8 };
+    let c = Case { bits, notation: case["notation"].as_u64().unwrap_or(0) as u8, trim: case["trim"].as_bool().unwrap_or(false), digits: case["digits"].as_u64().unwrap_or(0) as u8, min_digits: case["min_digits"].as_u64().unwrap_or(0) as u8 };
     if pow2 {
         check_pow2(&Job { entry, ty }, &c, &mut l)
     } else {
